@@ -5,6 +5,8 @@ the tree, i.e. the table the code denotes; the code itself is not run."""
 from .facts import AnalysisBroken, REF_KINDS
 from .match import strip_casts, resolve_local
 
+FACTS = None    # set by a rule module that wants small pure helpers folded through (dlist.FACTS = facts)
+
 
 def fold(n, env):
     n = strip_casts(n)
@@ -54,6 +56,21 @@ def fold(n, env):
         return fold(n.c[1] if c else n.c[2], env)
     if n.v is not None:
         return n.v
+    if n.d.get('call') and FACTS is not None:
+        # a small pure helper `return <expression over its parameters>;`: its value under the folded arguments
+        cal = n.callee()
+        name = n.cn or (cal.n if cal is not None and not isinstance(cal, str) else None)
+        args = n.args()
+        for f in FACTS.functions:
+            if f.name != name or f.kind not in ('pattern', 'plain') or len(f.params) != len(args) or not f.body:
+                continue
+            rets = f.returns()
+            if len(rets) != 1 or f.body.find(lambda x: x.k in ('ForStmt', 'WhileStmt', 'DoStmt', 'IfStmt', 'SwitchStmt')) or not rets[0].c:
+                continue
+            vals = [fold(a, env) for a in args]
+            if any(v is None for v in vals):
+                return None
+            return fold(rets[0].c[0], {p['n']: v for p, v in zip(f.params, vals)})
     return None
 
 
